@@ -3,6 +3,7 @@ package props
 import (
 	"fmt"
 	"go/types"
+	"regexp"
 	"strings"
 
 	"gmslverif/fw"
@@ -118,8 +119,16 @@ func requireOnSuccessIdx(c *fw.Ctx, rule, fname string, fn *ssa.Function, idx in
 					// the result of an unexported helper (a method of a request object, a function
 					// with several results) that the expansion could not open
 					if fw.AtomCallsUnexportedHelper(l.Atom) || strings.Contains(l.Atom, "dyn(") {
-						if h := fw.AtomHelper(l.Atom); h != nil && n.probe != "" && !regionCalls(h, n.probe) {
-							continue // the helper cannot establish this need: it never makes the call
+						if hs := fw.AtomHelpers(l.Atom); len(hs) > 0 && n.probe != "" {
+							any := false
+							for _, h := range hs {
+								if regionCalls(h, n.probe) {
+									any = true
+								}
+							}
+							if !any {
+								continue // the helper cannot establish this need: it never makes the call
+							}
 						}
 						if n.subject != "" && strings.Contains(l.Atom, "dyn(") && fw.AtomHelper(l.Atom) == nil && !dynGiven(l.Atom, n.subject) {
 							continue // no callback in this condition is handed the value
@@ -128,6 +137,18 @@ func requireOnSuccessIdx(c *fw.Ctx, rule, fname string, fn *ssa.Function, idx in
 							continue // the callback sees nothing of what the need is about
 						}
 						op = l.Atom
+					} else if hs := mentionedHelpers(c, l.Atom); len(hs) > 0 {
+						// a test of a field of a helper's result (a verdict struct): what it says was
+						// decided inside the helper
+						any := n.probe == ""
+						for _, h := range hs {
+							if n.probe != "" && regionCalls(h, n.probe) {
+								any = true
+							}
+						}
+						if any {
+							op = l.Atom
+						}
 					}
 				}
 				if op != "" {
@@ -228,6 +249,33 @@ func dynGiven(atom, subject string) bool {
 }
 
 // regionCalls: some function of h's region calls a function whose name ends in suffix.
+// mentionedHelpers: the unexported repository functions with a body whose calls are rendered
+// inside the atom (`(gmsl.examine(param:input)#2.fault == 0)`).
+var helperInAtom = regexp.MustCompile(`(\(\*?gmsl[\w/]*\.\w+\)\.[a-z_]\w*|gmsl[\w/]*\.[a-z_]\w*)\(`)
+
+var srcFuncIndex map[string]*ssa.Function
+
+func mentionedHelpers(c *fw.Ctx, atom string) []*ssa.Function {
+	if !strings.Contains(atom, "gmsl") {
+		return nil
+	}
+	if srcFuncIndex == nil {
+		srcFuncIndex = map[string]*ssa.Function{}
+		for _, f := range c.P.SrcFuncs() {
+			if len(f.Blocks) > 0 && f.Parent() == nil {
+				srcFuncIndex[fw.FuncName(f)] = f
+			}
+		}
+	}
+	var out []*ssa.Function
+	for _, m := range helperInAtom.FindAllStringSubmatch(atom, -1) {
+		if f := srcFuncIndex[m[1]]; f != nil && !stopExported(f) {
+			out = append(out, f)
+		}
+	}
+	return out
+}
+
 func regionCalls(h *ssa.Function, suffix string) bool {
 	for _, dc := range fw.AllDeepCalls(h, nil) {
 		if strings.HasSuffix(fw.CalleeName(dc.Call), suffix) {
@@ -521,7 +569,9 @@ func checkRestrictedJoinSelection(c *fw.Ctx) {
 		nd("the local server is in the allowed room", true, ".LocalServerInRoom"),
 		nd("the joining user is in the allowed room", true, ".UserJoinedToRoom"),
 		nd("the chosen event is a member event with a state key", false, ".StateKey(", " == nil)"),
-		{what: "the chosen user is a creator or may invite", alts: []lit{{[]string{"slices.Contains(", "reators"}, true}, {[]string{".UserLevel(", " < ", ".Invite)"}, false}, {[]string{".UserLevel(", " >= ", ".Invite)"}, true}, {[]string{"slices.Contains(phi("}, true}}},
+		{what: "the chosen user is a creator or may invite", alts: []lit{{[]string{"slices.Contains(", "reators"}, true}, {[]string{".UserLevel(", " < ", ".Invite)"}, false}, {[]string{".UserLevel(", " >= ", ".Invite)"}, true}, {[]string{"slices.Contains(phi("}, true},
+			// (a membership test in a set of creators kept as a map)
+			{[]string{"reators", "]#1"}, true}, {[]string{"reators", ".has("}, true}, {[]string{"reators", ".Contains("}, true}}},
 	}
 	known := func(atom string) bool {
 		if !fw.AtomCallsUnexportedHelper(atom) {
